@@ -215,7 +215,9 @@ h_common_configure(sim_config *cfg, Params *p)
 	p->set("tasks", 2 + p->draw("xtasks", 0, 2));
 	p->set("expires", 1 + p->draw("xexp", 0, 1));
 	p->set("pollers", 1 + p->draw("xpoll", 0, 1));
-	long bug = p->draw("bug", 0, 7);
+	long bug = p->draw("bug", 0, 15);
+	if (bug & 8)
+		cfg->list_points = 1;
 	if (bug & 1)
 		cfg->spurious_wake_p = 0.01;
 	if (bug & 2)
@@ -255,6 +257,7 @@ apply_overrides(sim_config *c, const Params *p)
 	OVD(spurious_wake_p);
 	OVD(eintr_p);
 	OVD(epoll_partial_p);
+	OVI(list_points);
 	OVI(seg_mode);
 	OVI(seg_k);
 	OVD(eagain_p);
